@@ -66,10 +66,12 @@ CHECKS = {
              'alone: two successive reservations are disjoint; add_union never shrinks the area and ends at least as large as every '
              'alternative (loop contract + ghost index, any number of alternatives). All sizes/alignments. Plus parse_esc_num of lexer.ll (flex '
              'regenerated per run): under the scanner rules that call it, no access outside [yytext, yytext+yyleng), no error, '
-             'the value of the digits.',
+             'the value of the digits. Plus state_con/state_des of eight operator classes of op.cc (op_origin, op_subx, op_tr_closure, '
+             'op_capture, op_bind, op_ifelse, op_format; op_merge bounded to 3 branches) against a ghost construction/destruction '
+             'log: own state area, every sub-operator and the upstream are constructed exactly once and destroyed exactly once, in reverse order.',
         design_ref='DESIGN.md section 4 C13',
-        note='SLICE ONLY: construct-once/destroy-once of states, leaks, use-after-free, parser memory are not covered by any '
-             'contract here. add_union not extracted.',
+        note='SLICE: lazily constructed states (scon_guard users, op_or, overload instances), the root caller of state_con/state_des, '
+             'leaks, use-after-free and parser memory are not covered. scon::con/des and sub-operators are modelled by a ghost event log (trusted).',
         technique='CBMC code contracts on C lowered from the real C++ per run',
     ),
     'C04': dict(
